@@ -425,11 +425,34 @@ const (
 // SplitElvis writes `?:` as `? :`, which is how the block parser reads it.
 func SplitElvis(line string) string { return strings.ReplaceAll(line, "?:", " ? :") }
 
-var rxCastPrefix = regexp.MustCompile(`(^|[|;{\n]|&&|->|=>)([ \t]*):[ \t]*[^\s|;{}&]+[ \t]+`)
+// the type of a cast ends at a blank or at a second colon glued to the command (`:out:0`)
+var rxCastPrefix = regexp.MustCompile(`(^|[|;{\n]|&&|->|=>)([ \t]*):[ \t]*(?:[^\s|;{}&:]+:|[^\s|;{}&]+[ \t]+)`)
 
 // DropCastPrefix removes a `:type ` cast written in front of a command, which
 // is where the block parser accepts one.
 func DropCastPrefix(line string) string {
+	// an escaped rune is plain text for both parsers: hide it from the pattern
+	const ph = "\x00"
+	var hidden []string
+	var b strings.Builder
+	for i := 0; i < len(line); i++ {
+		if line[i] == '\\' && i+1 < len(line) {
+			_, n := utf8.DecodeRuneInString(line[i+1:])
+			hidden = append(hidden, line[i:i+1+n])
+			b.WriteString(ph)
+			i += n
+			continue
+		}
+		b.WriteByte(line[i])
+	}
+	line = b.String()
+	defer func() {}()
+	restore := func(t string) string {
+		for _, h := range hidden {
+			t = strings.Replace(t, ph, h, 1)
+		}
+		return t
+	}
 	// casts can be stacked (`:a :b cmd`): repeat until nothing changes
 	for i := 0; i < 8; i++ {
 		n := rxCastPrefix.ReplaceAllString(line, "$1$2")
@@ -438,7 +461,16 @@ func DropCastPrefix(line string) string {
 		}
 		line = n
 	}
-	return line
+	return restore(line)
+}
+
+var rxExprQuestion = regexp.MustCompile(`(=[^\s?|;]*)\?([^\s?:])`)
+
+// BlankAroundQuestionInExpr: in an expression statement (`a =0?A`) the block
+// parser ends the expression at `?` whatever surrounds it; the tokenizer, which
+// has no notion of expression statements, only knows the blank-delimited pipe.
+func BlankAroundQuestionInExpr(line string) string {
+	return rxExprQuestion.ReplaceAllString(line, "$1 ? $2")
 }
 
 // MergeAsPipedCommand writes the merge operator `~>` the way the block parser
@@ -518,6 +550,7 @@ var repairs = []struct {
 	{KnownElvisAtBlockLevel, SplitElvis},
 	{KnownCastPrefix, DropCastPrefix},
 	{KnownParenCommandSplit, DropParens},
+	{KnownExprStatement, BlankAroundQuestionInExpr},
 	{KnownMergeOperator, MergeAsPipedCommand},
 	{KnownEscapedLineFeed, EscapedLineFeedAsLineFeed},
 }
